@@ -220,12 +220,19 @@ def flag_equivalence(case, rng, kp0):
 
     def compute():
         out = {}
-        Xt = kp.transform(X)
-        out['transform'] = Xt
-        out['inverse_transform'] = kp.inverse_transform(Xt)
-        out['predict'] = kp.predict(X)
-        out['predict_trajectory'] = kp.predict_trajectory(X)
-        out['predict_trajectory_norelift'] = kp.predict_trajectory(X, relift_state=False)
+
+        def put(name, fn):
+            # a computation that the library itself refuses (e.g. a prediction that leaves the finite range and is
+            # rejected by validation) is outside "valid input"; it is recorded as such and not compared
+            try:
+                out[name] = fn()
+            except Exception as e:  # noqa
+                out[name] = ('raised', type(e).__name__)
+        put('transform', lambda: kp.transform(X))
+        put('inverse_transform', lambda: kp.inverse_transform(kp.transform(X)))
+        put('predict', lambda: kp.predict(X))
+        put('predict_trajectory', lambda: kp.predict_trajectory(X))
+        put('predict_trajectory_norelift', lambda: kp.predict_trajectory(X, relift_state=False))
         eps = pykoop.split_episodes(X, episode_feature=ep)
         out['split_combine'] = pykoop.combine_episodes(eps, episode_feature=ep)
         out['n_episodes'] = np.array([len(eps)] + [e[1].shape[0] for e in eps], dtype=float)
@@ -240,6 +247,10 @@ def flag_equivalence(case, rng, kp0):
     with pykoop.config_context(skip_validation=True):
         b = compute()
     for k in a:
+        if isinstance(a[k], tuple):
+            continue                      # rejected with validation on: not a valid input for this computation
+        if isinstance(b[k], tuple):
+            return False, dict(what=f'{k} raises with skip_validation=True although it succeeds with validation', error=b[k][1])
         if a[k].shape != b[k].shape or a[k].dtype != b[k].dtype or not np.array_equal(a[k], b[k], equal_nan=True):
             return False, dict(what=f'{k} differs between skip_validation=False and skip_validation=True',
                                computation=k, shape_validating=list(a[k].shape), shape_skipping=list(b[k].shape),
